@@ -78,6 +78,8 @@ type vSrvTrace struct {
 	Info    map[string]interface{}   `json:"info,omitempty"`
 }
 
+var vSrvBusySeen int32
+
 var (
 	vSrvPatience = 2 * time.Second
 	vSrvPauseMin = 4 * time.Millisecond // a pause of the accept loop is at least this long
@@ -207,6 +209,15 @@ func (l *vSrvListener) Accept() (net.Conn, error) {
 		l.mu.Unlock()
 	}
 	return r.conn, r.err
+}
+// offer hands r to the Accept call the loop is parked in; false when no Accept call takes it
+func (l *vSrvListener) offer(r vSrvAcc) bool {
+	select {
+	case l.ch <- r:
+		return true
+	case <-time.After(vSrvPatience):
+		return false
+	}
 }
 func (l *vSrvListener) Close() error   { l.mu.Lock(); l.closes++; l.mu.Unlock(); return nil }
 func (l *vSrvListener) Addr() net.Addr { return vSrvAddr("verif-listener") }
@@ -647,6 +658,10 @@ func (r *vSrvRig) quiesce() (vSrvPic, error) {
 		if ok && (p.busy || !r.settled(p)) {
 			if patience.IsZero() {
 				patience = time.Now().Add(vSrvPatience)
+				if p.busy && atomic.LoadInt32(&vSrvBusySeen) >= 3 {
+					// a loop that handles its connections itself: seen often enough to believe it sooner
+					patience = time.Now().Add(vSrvPatience / 20)
+				}
 			}
 			if time.Now().Before(patience) {
 				ok = false
@@ -660,6 +675,9 @@ func (r *vSrvRig) quiesce() (vSrvPic, error) {
 			}
 			prev = p.text
 			if same >= 1 {
+				if p.busy {
+					atomic.AddInt32(&vSrvBusySeen, 1)
+				}
 				return p, nil
 			}
 		} else {
@@ -740,19 +758,29 @@ func (r *vSrvRig) apply(s vSrvStep) (map[string]interface{}, func()) {
 			ptInfo.OrAddr = vSrvDeadAddr
 			undo = func() { ptInfo.OrAddr = good }
 		}
-		r.ln.ch <- vSrvAcc{conn: c}
+		if !r.ln.offer(vSrvAcc{conn: c}) {
+			if undo != nil {
+				undo()
+			}
+			r.conns, r.ors, r.proxy = r.conns[:len(r.conns)-1], r.ors[:len(r.ors)-1], r.proxy[:len(r.proxy)-1]
+			return nil, nil
+		}
 		return map[string]interface{}{"ev": "Accept", "d": s.D}, undo
 	case "AcceptTemp":
 		if !loopParked() {
 			return nil, nil
 		}
-		r.ln.ch <- vSrvAcc{err: vSrvTempErr{}}
+		if !r.ln.offer(vSrvAcc{err: vSrvTempErr{}}) {
+			return nil, nil
+		}
 		return map[string]interface{}{"ev": "AcceptTemp"}, nil
 	case "AcceptPerm":
 		if !loopParked() {
 			return nil, nil
 		}
-		r.ln.ch <- vSrvAcc{err: errors.New("accept: listener is gone (scripted)")}
+		if !r.ln.offer(vSrvAcc{err: errors.New("accept: listener is gone (scripted)")}) {
+			return nil, nil
+		}
 		return map[string]interface{}{"ev": "AcceptPerm"}, nil
 	case "ClientChunk":
 		c := r.conn(s.I)
@@ -1160,7 +1188,9 @@ func vSrvRunProc(sc vSrvSched, tr *vSrvTrace) {
 			t.shut()
 		}
 		for _, o := range ors {
-			o.c.Close()
+			if o != nil {
+				o.c.Close()
+			}
 		}
 	}()
 	select {
